@@ -112,7 +112,7 @@ def run_case(case) -> Result:
         if rnd:
             res.features.add("second-round-eval-mode")
             for _, _, e_, _ in derived:
-                if comp.is_compiled(e_):
+                if comp.is_compiled(e_) and not eval_first:  # (already in eval mode otherwise: no second mode switch)
                     comp.get_compiled_circuit(e_).eval()
             tie.revalue(comp, c, np.random.default_rng(vseed + 17), "posonly" if mono else "normal")
         elif vcls != "init":
@@ -123,7 +123,7 @@ def run_case(case) -> Result:
               ce = C.compile_in(res, comp, e, f"evidence over {z} [{tag}]")
               if ce is None:
                   continue
-              if eval_first:  # inference mode from the first evaluation on; round 2 follows an in-place update
+              if eval_first and rnd == 0:  # inference mode from the first evaluation on (one mode switch only); round 2 follows an in-place update
                   ce.eval()
                   res.features.add("eval-mode-before-update")
               res.features |= {f for f in structs.compiled_features(ce) if "Evidence" in f}
